@@ -100,7 +100,7 @@ func c08LagRun(c *Ctx, base string, wl int, w *c08Workload, stopIdx int, tag str
 	live := filepath.Join(base, "lag-live-"+tag)
 	os.MkdirAll(live, 0755)
 	defer os.RemoveAll(live)
-	db := store.NewChainDataBase(live)
+	db := c08OpenChain(live)
 	q := db.Beansdb.Queue
 	sf := q.SyncFileDB
 	walPath := filepath.Join(live, "tmp.data")
@@ -108,7 +108,7 @@ func c08LagRun(c *Ctx, base string, wl int, w *c08Workload, stopIdx int, tag str
 		panic("lag workload: genesis rejected")
 	}
 	if !c08QueueIdle(q, 20*time.Second) {
-		panic("lag: genesis does not drain")
+		panic(c08HangPanic{"writer-drain", "lag: genesis does not drain"})
 	}
 	// what the bitcasks hold for the accounts before anything of blocks 1..3 is written
 	baseline := map[string][]byte{}
@@ -119,7 +119,10 @@ func c08LagRun(c *Ctx, base string, wl int, w *c08Workload, stopIdx int, tag str
 	// blocks 1..3 arrive (unconfirmed, memory only) BEFORE the writer is gated: SetBlock reads through the bitcasks
 	for h := 1; h <= 3; h++ {
 		blk := w.Blocks[h]
-		if err := db.SetBlock(blk.Hash(), blk); err != nil {
+		c08Mark("set-block")
+		err := db.SetBlock(blk.Hash(), blk)
+		c08Unmark()
+		if err != nil {
 			panic("lag: SetBlock: " + err.Error())
 		}
 		act, _ := db.GetActDatabase(blk.Hash())
@@ -146,7 +149,11 @@ func c08LagRun(c *Ctx, base string, wl int, w *c08Workload, stopIdx int, tag str
 	}
 	defer unlockHeld()
 	promote := func(h int) {
-		if _, err := db.SetStableBlock(w.Blocks[h].Hash()); err != nil {
+		c08Note(fmt.Sprintf("SetStableBlock(block %d) with the writer held", h))
+		c08Mark("set-stable-block")
+		_, err := db.SetStableBlock(w.Blocks[h].Hash())
+		c08Unmark()
+		if err != nil {
 			panic(fmt.Sprintf("lag: SetStableBlock(%d): %v", h, err))
 		}
 	}
@@ -219,7 +226,7 @@ func c08LagRun(c *Ctx, base string, wl int, w *c08Workload, stopIdx int, tag str
 	if stopIdx >= len(res.stops) {
 		unlockHeld()
 		c08QueueIdle(q, 20*time.Second)
-		db.Close()
+		c08CloseChain(db)
 		return res
 	}
 	// release the writer stop by stop
@@ -235,12 +242,12 @@ func c08LagRun(c *Ctx, base string, wl int, w *c08Workload, stopIdx int, tag str
 			// the writer has taken record `next` out of the channel and blocks on its bitcask
 			want := len(fifo) - next - 1
 			if !c08WaitFor("writer advanced", func() bool { return len(sf.WriteChan) == want && len(q.DoneChan) == 0 }) {
-				panic("lag: writer does not advance")
+				panic(c08HangPanic{"writer-drain", "lag: writer does not advance"})
 			}
 		} else {
 			unlockHeld()
 			if !c08QueueIdle(q, 20*time.Second) {
-				panic("lag: writer does not drain")
+				panic(c08HangPanic{"writer-drain", "lag: writer does not drain"})
 			}
 		}
 		// let the queue goroutine finish delIndex of the last acknowledged record
@@ -290,7 +297,7 @@ func c08LagRun(c *Ctx, base string, wl int, w *c08Workload, stopIdx int, tag str
 	mkImg(fmt.Sprintf("writer lag: blocks 1,2 promoted, writer has persisted %d of %d records, then block 3 promoted", persisted, len(fifo)), "lag-after-next-promotion", 3)
 	unlockHeld()
 	c08QueueIdle(q, 20*time.Second)
-	db.Close()
+	c08CloseChain(db)
 	return res
 }
 
@@ -335,7 +342,7 @@ func c08LagOracle(c *Ctx, base string) {
 			r := results[i]
 			if r.out == nil {
 				c.Count("chain:" + img.class + ":process-died")
-				c08Fail(c, "c08/reopen-crash/"+img.cause, fmt.Sprintf("[%s] the process reopening the data directory dies: %s", img.name, r.die), img.replay)
+				c08ChildDied(c, img, r.die)
 				continue
 			}
 			if r.out.OpenPanic != "" {
@@ -439,7 +446,7 @@ func c08RewindOracle(c *Ctx, base string) {
 	live := filepath.Join(base, "rewind-live")
 	os.MkdirAll(live, 0755)
 	defer os.RemoveAll(live)
-	db := store.NewChainDataBase(live)
+	db := c08OpenChain(live)
 	var images []*c08Image
 	for h := 0; h <= H; h++ {
 		if sb, ss := w.apply(db, h); sb != "ok" || ss != "ok" {
@@ -447,7 +454,7 @@ func c08RewindOracle(c *Ctx, base string) {
 			break
 		}
 		if !c08QueueIdle(db.Beansdb.Queue, 20*time.Second) {
-			panic("rewind: queue does not drain")
+			panic(c08HangPanic{"writer-drain", "rewind: queue does not drain"})
 		}
 		if h == 0 {
 			continue
@@ -474,7 +481,7 @@ func c08RewindOracle(c *Ctx, base string) {
 		}
 		images = append(images, img)
 	}
-	db.Close()
+	c08CloseChain(db)
 	for _, img := range images {
 		img := img
 		c08Guard(c, "image-check", func() {
@@ -482,7 +489,7 @@ func c08RewindOracle(c *Ctx, base string) {
 			os.RemoveAll(img.dir)
 			if o == nil {
 				c.Count("chain:" + img.class + ":process-died")
-				c08Fail(c, "c08/reopen-crash/"+img.cause, fmt.Sprintf("[%s] the process reopening the data directory dies: %s", img.name, die), img.replay)
+				c08ChildDied(c, img, die)
 				return
 			}
 			if o.OpenPanic != "" {
